@@ -66,23 +66,17 @@ Definition writer_width_statement : Prop :=
   forall k sep hdr (rows : list record), allowed sep -> ragged rows ->
   csv_save k sep (map (with_keys hdr) rows) = Err OutOfRange.
 
-Lemma writer_width_all_terminate : forall k sep hdr (rows : list record), allowed sep -> ragged rows ->
-  csv_save k sep (map (with_keys hdr) rows) = Terminate /\
+Lemma writer_width_all_reported : forall k sep hdr (rows : list record), allowed sep -> ragged rows ->
+  csv_save k sep (map (with_keys hdr) rows) = Err OutOfRange /\
   writer_run k true sep (map (with_keys hdr) rows) = Err OutOfRange.
 Proof.
   intros k sep hdr rows A R. pose proof (ragged_rows_reported k true sep _ (with_keys_ragged hdr rows R)) as [H1 H2].
   split; [apply H2; apply allowed_validate; exact A | exact H1].
 Qed.
 
-Lemma writer_width_refuted : ~ writer_width_statement.
-Proof.
-  intros H. specialize (H WString 44 [[97]] [[[49]]; []]).
-  assert (A : allowed 44) by (cbn; auto).
-  assert (R : ragged [[[49]]; ([] : record)]) by (cbn; constructor; cbn; discriminate).
-  specialize (H A R). destruct (writer_width_all_terminate WString 44 [[97]] _ A R) as [T _].
-  assert (E : @Terminate (list N) = Err OutOfRange) by (etransitivity; [symmetry; exact T | exact H]).
-  discriminate E.
-Qed.
+(* since fix 0a28cd4 the full statement holds (it was refuted by every ragged table: std::terminate) *)
+Lemma writer_width_holds : writer_width_statement.
+Proof. intros k sep hdr rows A R. exact (proj1 (writer_width_all_reported k sep hdr rows A R)). Qed.
 
 (* ---------- readers ---------- *)
 
